@@ -150,3 +150,39 @@ Section IcalUtc.
         rewrite Nv, Am. reflexivity.
   Qed.
 End IcalUtc.
+
+(* ------------------------------------------------------------------------------------------------
+   F-C17-1 as a theorem about the faithful model: NEGATIVE saving (the Irish rule
+   'IST-1GMT0,M10.5.0/2,M3.5.0/1'; every guard clause holds except the sign of the saving).  At
+   2021-10-31T00:30:00Z, half an hour before the transition into the lower offset, the VTIMEZONE zone
+   converts UTC to the wall reading 00:30 with offset +01:00 -- which is not that instant -- while the
+   tzstr zone of the same rule (and POSIX) says 01:30 +01:00 IST: tzical differs from tzstr. *)
+Definition ical_negdst_rule : posix :=
+  mkPosix [73; 83; 84] 3600
+    (Some (mkDst [71; 77; 84] 0 (mkPrule (DM 10 5 0) 7200) (mkPrule (DM 3 5 0) 3600))).
+Definition ical_negdst_instant : Z := ord_of_ymd 2021 10 31 * 86400 + 1800.
+
+Lemma ical_negative_dst_refuted_lemma :
+  exists r ds y0 n u z o w f off d nm,
+    r.(p_dst) = Some ds /\ wf_posix r = true /\ guard_d8 r = true /\ ds.(d_off) < r.(p_off) /\
+    in_range y0 n (u - DAY) /\ in_range y0 n (u + DAY) /\
+    tzstr_init (render_posix r) false = Ok z /\ observe_utc z u = Ok o /\
+    ic_observe_utc [comp_daylight r ds y0 n; comp_standard r ds y0 n] u = Ok (w, f, off, d, nm) /\
+    w <> o.(o_wall) /\ w - off <> u /\
+    (o.(o_wall), o.(o_off)) = (u + fst (fst (posix_observe r u)), fst (fst (posix_observe r u))).
+Proof.
+  exists ical_negdst_rule. eexists. exists 2019, 5%nat, ical_negdst_instant.
+  do 7 eexists.
+  split; [reflexivity|].
+  split; [vm_compute; reflexivity|].
+  split; [vm_compute; reflexivity|].
+  split; [vm_compute; reflexivity|].
+  split; [unfold in_range; vm_compute; split; reflexivity|].
+  split; [unfold in_range; vm_compute; split; reflexivity|].
+  split; [vm_compute; reflexivity|].
+  split; [vm_compute; reflexivity|].
+  split; [vm_compute; reflexivity|].
+  split; [vm_compute; discriminate|].
+  split; [vm_compute; discriminate|].
+  vm_compute. reflexivity.
+Qed.
